@@ -883,8 +883,8 @@ func (e *e1) isRelevant(fc *Term) bool {
 		return true // abstract predicate established by a guarantee
 	}
 	switch fc.S {
-	case "called", "orig":
-		return true
+	case "called", "orig", "errIs":
+		return true // errIs: how the helper classified an error (a sentinel) is what the error-edge rules ask about
 	}
 	if strings.HasPrefix(fc.S, "did") {
 		return true
